@@ -1,6 +1,7 @@
 package main
 
 import (
+	"strconv"
 	"encoding/json"
 	"fmt"
 	"os"
@@ -223,7 +224,9 @@ func selfAssessMore(pc *propCfg, tier string, a *agg) string {
 	}
 	switch pc.ID {
 	case "C01", "C03":
-		return need(a.probes, "substitute-returned", "early-reference-produced", "candidate-order-non-canonical")
+		return need(a.probes, "substitute-returned", "early-reference-produced", "candidate-order-non-canonical", "holder-holds-its-own-early-substitute")
+	case "C07":
+		return need(a.probes, "rejected-registration-owner-read")
 	case "C02", "C10":
 		return need(a.probes, "early-reference-produced", "candidate-order-non-canonical", "scheduler-choice-among-several-parked")
 	case "C04":
@@ -237,6 +240,8 @@ func selfAssessMore(pc *propCfg, tier string, a *agg) string {
 		}
 	case "C12":
 		return need(a.probes, "direct-sorter-cases")
+	case "C18":
+		return need(a.probes, "lazy-component-created-after-configuration-change")
 	case "C20":
 		if a.outcomes["ok"]+a.outcomes["error"] == 0 {
 			return "racesim performed no run"
@@ -341,6 +346,17 @@ func cmdGen(args []string) int {
 		fam = args[0]
 	}
 	n := 3
+	if len(args) > 2 {
+		// verif gen <family> exact <program seed> [<id>]: one program exactly as a batch generated it
+		ps, _ := strconv.ParseUint(args[2], 10, 64)
+		id := "P0"
+		if len(args) > 3 {
+			id = args[3]
+		}
+		b, _ := json.MarshalIndent(gen.Generate(ps, id, fam), "", " ")
+		fmt.Println(string(b))
+		return 0
+	}
 	for i := 0; i < n; i++ {
 		p := gen.Generate(mix(seedFromEnv(), uint64(i)), fmt.Sprintf("P%d", i), fam)
 		b, _ := json.MarshalIndent(p, "", " ")
